@@ -54,15 +54,16 @@ LEVEL_NOTE = ('Trusted: NumPy long double, the reference vlib/ref/stencils.py '
               'test is assumed for the step "matrix decides all inputs"; one '
               'generic data vector per operator guards it.')
 DESIGN_REF = 'DESIGN.md section 5, C13'
-BUDGET = {'quick': 1600, 'thorough': 24000}
+BUDGET = {'quick': 1600, 'thorough': 12000}
 K_BASE = 4
 TOLERANCES = {
     'matrix': '|got - ref| <= (4 + 2*ndim) * eps(dtype) * (sum_j |ref_ij| '
               '(no cancellation between the forward and backward parts of '
-              'the Laplacian) + 2*|pad_const*b_i|) per row i; the reference '
-              'cell side is (max-min)/n recomputed from the descriptor (<= 1 '
-              'ulp from the library value), one rounding for the division, '
-              'up to 2*ndim roundings for the Laplacian accumulation',
+              'the Laplacian) + 2*|pad_const*b_i|) per row i; the cell side '
+              'is the one the space reports (cross-checked against '
+              '(max-min)/n from the descriptor), one rounding for the '
+              'division, up to 2*ndim roundings for the Laplacian '
+              'accumulation',
     'data': '|op(x) - (M x + b)| <= (4 + 2*ndim) * eps * (|M||x| + |b|) per '
             'entry, reference in long double',
     'gram': 'max|N^T G_X - G_Y M| <= 64*eps*max(|lhs|,|rhs|) (dim <= 24); '
@@ -164,15 +165,19 @@ def _strategy(draw):
     cell = []
     for _ in range(nd):
         kind = draw(st.sampled_from(['unit', 'palette', 'generic',
-                                     'generic']))
+                                     'generic64']))
         if kind == 'unit':
             cell.append(1.0)
         elif kind == 'palette':
-            cell.append(draw(st.sampled_from([0.5, 0.3, 2.0, 0.125, 7.0])))
-        else:
+            cell.append(draw(st.sampled_from([0.5, 0.3, 2.0, 0.125, 7.0,
+                                              0.1])))
+        elif kind == 'generic':
             cell.append(draw(st.floats(0.02, 9.0).map(_f32)))
-    mn = [draw(st.sampled_from([0.0, -1.0, 2.5]) |
-               st.floats(-5, 5).map(_f32)) for _ in range(nd)]
+        else:
+            cell.append(draw(st.floats(0.02, 9.0)))
+    mn = [draw(st.sampled_from([0.0, -1.0, 2.5, 0.1]) |
+               st.floats(-5, 5).map(_f32) | st.floats(-5, 5))
+          for _ in range(nd)]
     dtype = draw(st.sampled_from(['float64', 'float64', 'complex128',
                                   'float32', 'complex64']))
     cplx = dtype.startswith('complex')
@@ -609,14 +614,23 @@ def run_case(desc):
     else:
         ran = space
     range_kind = desc['range']
+    # "the cell side" of the property is the one the space reports (the grid
+    # is an input here; its accuracy belongs to C14): the stride of the grid
+    # coordinates carries an absolute error of a few ulp of the coordinates
+    feps = np.finfo(float).eps
     for a in range(nd):
-        if not abs(space.cell_sides[a] - dxs[a]) <= 4 * np.finfo(float).eps \
-                * dxs[a]:
-            raise HarnessError('cell side mismatch {} vs {}'.format(
-                space.cell_sides[a], dxs[a]))
+        lib = float(space.cell_sides[a])
+        slack = 8 * feps * (abs(mins[a]) + abs(maxs[a])) + 4 * feps * dxs[a]
+        if not abs(lib - dxs[a]) <= slack:
+            raise HarnessError('cell side mismatch {!r} vs {!r}'.format(
+                lib, dxs[a]))
+        dxs[a] = lib
 
     nmin = min(shape)
     short_axes = [a for a in range(nd) if shape[a] < S.min_size(mode)]
+    # (2 if some too-short axis has two entries: order2_adjoint, see
+    # ASSUMPTIONS; the first offending axis decides which error is raised)
+    nshort = max([shape[a] for a in short_axes], default=0)
     region = '{},{},n={}'.format(method, mode, _sizeclass(nmin))
     affine = mode == 'constant' and c != 0
     cc = complex(c) if cplx else float(np.real(c))
@@ -647,8 +661,8 @@ def run_case(desc):
     div = Divergence(domain=odl.ProductSpace(space, nd), range=ran,
                      method=method, pad_mode=mode, pad_const=c)
     if short_axes:
-        _expect_rejected(grad, 'Gradient', region, mode, nmin, notes)
-        _expect_rejected(div, 'Divergence', region, mode, nmin, notes)
+        _expect_rejected(grad, 'Gradient', region, mode, nshort, notes)
+        _expect_rejected(div, 'Divergence', region, mode, nshort, notes)
     else:
         M, b = S.gradient_matrix(shape, dxs, method, mode)
         ref = (M, cc * b, np.abs(M).sum(axis=1), abs(cc) * np.abs(b))
@@ -675,7 +689,7 @@ def run_case(desc):
     else:
         lap = Laplacian(space, range=ran, pad_mode=mode, pad_const=c)
         if short_axes:
-            _expect_rejected(lap, 'Laplacian', lreg, mode, nmin, notes)
+            _expect_rejected(lap, 'Laplacian', lreg, mode, nshort, notes)
         else:
             M, b = S.laplacian_matrix(shape, dxs, mode)
             RM, Rb = 0.0, 0.0
@@ -716,6 +730,7 @@ def _expect_rejected(op, name, region, mode, n, notes):
     """Axis below the documented minimum: evaluation must raise."""
     allowed = (ValueError,)
     if mode == 'order2_adjoint' and n == 2:
+        # some axis of size 2 (see ASSUMPTIONS)
         allowed = (ValueError, IndexError)
     try:
         op(op.domain.zero())
